@@ -32,7 +32,7 @@ FP_SHAPES = {1: [(1,), (3,)], 2: [(2, 3), (3, 2), (1, 2)], 3: [(2, 2, 3), (3, 2,
 
 
 def bounds(tier):
-    return {"cells_per_axis": "1..3", "dt": [str(x) for x in DT[tier]],
+    return {"grids": U.grid_bounds(tier), "dt": [str(x) for x in DT[tier]],
             "fixed_point_shapes": "reduced" if tier == "quick" else "all of the quick shape set"}
 
 
